@@ -1837,15 +1837,14 @@ def mon_c10(api, rng, budget, variants):
 
 PROPS['C10'] = {
     'targets': ['props/C10.vo', 'props/C16.vo'],
-    'theorems': [('props.C10', n) for n in ['c10_shape', 'c10_no_overflow', 'c10_setup', 'c10_cleanup', 'c10_verdict', 'c10_restores_shadow', 'c10_restores']] + [('props.C16', 'c16_every_history')],
+    'theorems': [('props.C10', n) for n in ['c10_no_overflow', 'c10_run', 'c10_settled', 'c10_restores_shadow', 'c10_restores']] + [('props.C16', 'c16_every_history')],
     'corr_gen': lambda api, rng, n: selftest_programs(api, rng, n),
     'corr_n': (200, 3000), 'monitor': mon_c10, 'monitor_n': (400, 10000), 'judge': check_selftest,
-    'statement': 'perform_self_test is, by conversion, save; set-up; delay 2; 0x7D<-0x07; delay 50; one 6-byte read at 0x04; 0x7D<-0x0F; delay 50; one 6-byte read; '
-                 'differences; 0x7D<-0x00; delay 50; clean-up from the saved shadow; verdict (c10_shape). Set-up writes INT_CONFIG0/1 <- 0, wake-up interrupt bit and '
-                 'FIFO axis bits cleared, power mode normal with the other bits kept, ACC_CONFIG1 <- 0x78, interrupts off before the ODR changes (c10_setup, '
-                 'symbolic execution). Clean-up writes the saved values of exactly those six registers back (c10_cleanup). No i16 overflow for 12-bit samples and '
-                 'Ok iff dx>1500, dy>1200, dz>250 (c10_verdict). End to end: whenever the procedure reaches its verdict (Ok or SelfTestFailedError) over the register-level transport, '
-                 'the shadow afterwards is the shadow before and every shadowed device register holds its previous value (c10_restores: wpx over the whole generated body + C16); '
-                 'the shadow equals the device through the procedure, aborted runs included (C16). Not covered by a theorem: the link from the served response bytes to the '
-                 'decoded samples inside the whole procedure is by C03 (get_unscaled_data) and the correspondence check',
+    'statement': 'on the register-level semantics, for every shadow made of bytes, every chip and every pair of recorded responses: perform_self_test performs exactly '
+                 'the events st_events d in that order (interrupts, auto-wake-up interrupt and FIFO axis capture off, normal mode with the other bits kept, ACC_CONFIG1 <- 0x78, '
+                 'delay 2, 0x7D<-0x07, delay 50, one 6-byte read at 0x04, 0x7D<-0x0F, delay 50, one 6-byte read, 0x7D<-0x00, delay 50, the six saved values written back), returns Ok '
+                 'exactly when the differences of the decoded samples exceed 1500 / 1200 / 250 and SelfTestFailedError otherwise, shadow unchanged (c10_run; c10_settled: every read '
+                 'follows its excitation write after >= 50 ms with no other traffic); the proof evaluates `sem` through the generated body by rewriting, independent of the order of its '
+                 'pure computations. End to end under any fault plan that lets the call reach its verdict: '
+                 'the shadow afterwards is the shadow before and every shadowed device register holds its previous value (c10_restores: wpx over the whole body + C16)',
 }
